@@ -192,6 +192,20 @@ def run(ctx):
                    not chain_only and not [v for v in viol if v[1] in ("substep-window", "substep-balance")],
                    "%d differ; first: %s" % (len(chain_only), chain_only[0][1] if chain_only else ""))
     mism = list(mism) + [(c, [d]) for c, d in chain_only]
+    # ---- the coupled thermohydraulic driver stores single implicit steps of the same problem ----
+    # (then step_balance / history_balance apply to its wall fields too; the driver's Picard loop must not advance
+    # the wall by more than one dt per stored step)
+    try:
+        import c07
+        spec = {"name": "C02: coupled transient, dt comparable with t^2/alpha", "ndim": 1, "times": [0.0, 0.002, 0.004, 0.008],
+                "panels": [[2], [1]], "paths": [[0, 1]], "steady": False, "T": 2.0, "nr": 6, "qt": [0.0, 1.0, 1.0, 0.5], "q0": 0.6}
+        rcv, fl = c07.solve(spec)
+        cbad = c07.metal_consistency(spec, rcv, fl)
+        ctx.case(("coupled-transient",), nontrivial=True, tag="real/coupled driver/transient")
+        for m in cbad[:3]:
+            viol.append((None, "coupled-step", "coupled thermohydraulic solve: " + m, spec))
+    except RuntimeError as e:
+        ctx.notes.append("coupled transient solve raised (C17, not C02): %r" % (e,))
     # ---- known corner F17: thick coarse tube ----
     f17 = tc.gen_case(rng, ndim=1, inner="flux", outer="ins", steady=False, const_mat=True, thick_ok=True, nsteps=1)
     f17.r, f17.t, f17.nr, f17.h = 1.0, 0.8, 2, 1.0
@@ -209,8 +223,12 @@ def run(ctx):
     if nraised * 5 > n_real:
         mism = list(mism) + [(cases[0], ["%d of %d real solves raised" % (nraised, n_real)])]
     ctx.obligation("property predicate (discrete balance, wall contributions, flux sign, area bound, insulated exactness) on real solves",
-                   not [v for v in viol if "thick" not in v[1]], "%d failures; first: %s" % (len(viol), viol[0][1:] if viol else ""))
-    for c, what, detail in viol[:10]:
+                   not [v for v in viol if "thick" not in v[1]], "%d failures; first: %s" % (len(viol), viol[0][1:3] if viol else ""))
+    for v in viol[:10]:
+        c, what, detail = v[0], v[1], v[2]
+        if c is None:
+            ctx.violation(detail, {"coupled_spec": v[3], "check": what}, signature="c02:" + what)
+            continue
         sig = F17_SIG if what.endswith("-thick") else "c02:" + what
         ctx.violation("real thermal solve: " + detail, {"case": c.to_json(), "check": what, "substep": c.substep}, signature=sig)
     if not ctx.violations and (mism or not thm_ok):
@@ -222,6 +240,14 @@ def run(ctx):
 
 def replay(obj):
     r = obj["replay"]
+    if "coupled_spec" in r:
+        import c07
+        rcv, fl = c07.solve(r["coupled_spec"])
+        bad = c07.metal_consistency(r["coupled_spec"], rcv, fl)
+        for m in bad:
+            print("FAILS:", m)
+        print("property violated on this input" if bad else "property holds on this input")
+        return 1 if bad else 0
     if "case" not in r:
         print("replay names no input:", list(r))
         return 1
